@@ -111,6 +111,8 @@ void ScriptClass::ArchiveScript(ScriptMaster& director, Archiver& arc, ScriptCla
             }
 
             thread->ArchiveInternal(arc);
+
+            prevVM = vm;
         }
 
         classRef = s;
